@@ -160,7 +160,7 @@ class Sem:
                     q = self.conclusion(concl, sigma, tys, allow_pending)
                     if q == T:
                         continue
-                    out.append(("%s.%s#%d%s" % (label, rname, k, sigma), c.implies(p, q)))
+                    out.append(("%s.%s:%s#%d%s" % (label, concl[0], rname, k, sigma), c.implies(p, q)))
         return out
 
 
